@@ -91,6 +91,8 @@ def check(chk: Check) -> None:
                             for src in ("raw-nonseekable", "buffered-nonseekable"):
                                 jobs.append(dict(physical=physical, complete=j, cut=cut, integ=integ, parser=parser, source=src))
     for res in pmap(run, jobs):
+        if res is None:
+            continue
         chk.functions.update(res["funcs"])
         jb = res["job"]
         inst = f"{jb['integ']}.{jb['parser']} physical={jb['physical']} {jb.get('source', 'seekable')} source complete_frames={jb['complete']} then {jb['cut']}"
